@@ -61,6 +61,17 @@ def _sites(tier):
                 st = "{%s}" % ", ".join(perm) if perm else "set()"
                 sites.append(("dict:" + key, ["v = {'k': %s, 'j': frozenset([%s])}" % (st, ", ".join(perm))]))
                 sites.append(("list:" + key, ["v = [%s, (%s,)]" % (st, st)]))
+    # an existing dict snapshot compared with dicts that hold the same keys in every insertion order (one value differs):
+    # the fixed text must not depend on the order in which the observed dict was built
+    base = {"a": "1", "b": "0", "c": "[3]"}
+    obs = {"a": "1", "b": "2", "c": "[3]"}
+    for perm in itertools.permutations("abc"):
+        sites.append(("dictfix:value-changes", ["v = {}"] + ["v[%r] = %s" % (k, obs[k]) for k in perm], "{'a': 1, 'b': 0, 'c': [3]}"))
+        sites.append(("dictfix:equal", ["v = {}"] + ["v[%r] = %s" % (k, base[k]) for k in perm], "{'a': 1, 'b': 0, 'c': [3]}"))
+        sites.append(("dictfix:nested", ["v = {'k': {}}"] + ["v['k'][%r] = %s" % (k, obs[k]) for k in perm], "{'k': {'a': 1, 'b': 0, 'c': [3]}}"))
+        sites.append(("dictfix:key-added", ["v = {}"] + ["v[%r] = %s" % (k, obs[k]) for k in perm] + ["v['d'] = 4"], "{'a': 1, 'b': 0, 'c': [3]}"))
+    for perm in itertools.permutations(("a", "b")):
+        sites.append(("dictfix:dataclass-kw", ["v = DCK(**{%s})" % ", ".join("%r: %s" % (k, obs[k]) for k in perm)], "DCK(a=1, b=0)"))
     for i, ex in enumerate(['" a "', '[" a ", "b "]', '{"k": " | ", " j": ""}', '"a\\nb "', '" \\n"', "(1.0, -0.0, 1e100, 2**70)", '[(" a",)]',
                             "{'k': [' x ', b' y ']}", "1j + 2", "[-1, (-2,)]"]):
         sites.append(("misc:%d" % i, ["v = %s" % ex]))
@@ -68,13 +79,14 @@ def _sites(tier):
 
 
 def _file(sites):
-    out = ["from inline_snapshot import snapshot\n\n\nclass BadRepr:\n    def __eq__(self, other):\n        return True if isinstance(other, BadRepr) else NotImplemented\n    def __repr__(self):\n        raise RuntimeError('no repr')\n\n\n"
+    out = ["from inline_snapshot import snapshot\nfrom dataclasses import dataclass\n\n\n@dataclass\nclass DCK:\n    a: int\n    b: int\n\n\nclass BadRepr:\n    def __eq__(self, other):\n        return True if isinstance(other, BadRepr) else NotImplemented\n    def __repr__(self):\n        raise RuntimeError('no repr')\n\n\n"
            "def test_000_bad_repr():\n    try:\n        assert BadRepr() == snapshot(1)\n    except Exception:\n        pass\n\n"]
     G = 25  # sites per test function: keeps pytest's per-test overhead out of the cold processes
     for g in range(0, len(sites), G):
         out.append("\ndef test_%d():\n" % (g // G))
-        for _, lines in sites[g : g + G]:
-            out.append("".join("    " + l + "\n" for l in lines) + "    assert v == snapshot()\n")
+        for site in sites[g : g + G]:
+            lines, arg = site[1], (site[2] if len(site) > 2 else "")
+            out.append("".join("    " + l + "\n" for l in lines) + "    _ok = v == snapshot(%s)\n" % arg)
     return "".join(out)
 
 
@@ -105,7 +117,7 @@ def run_task(task):
         files["pyproject.toml"] = '[tool.inline-snapshot]\nformat-command="cat"\n'
     d = plugin.mk_project(files)
     try:
-        r = plugin.cold_session(d, ["--inline-snapshot=create", "-p", "no:randomly"], hashseed=task["hs"], timeout=1000)
+        r = plugin.cold_session(d, ["--inline-snapshot=create,fix", "-p", "no:randomly"], hashseed=task["hs"], timeout=1000)
         after = plugin.listing(d, text=True)["test_something.py"]
     finally:
         plugin.cleanup()
@@ -157,7 +169,7 @@ def _compare(results, sites, only_key=None):
     canon = {}  # fmt -> key -> (text, task, site index)
     for fmt, runs in byfmt.items():
         for t, texts in runs:
-            for i, (key, lines) in enumerate(sites):
+            for i, (key, lines, *_arg) in enumerate(sites):
                 if only_key and key != only_key:
                     continue
                 if texts[i] == "":
@@ -206,10 +218,10 @@ def explore(tier, seed, runner):
     compared = {}
     for t, r in ok:
         if r.get("texts"):
-            for i, (key, lines) in enumerate(sites):
+            for i, (key, lines, *_arg) in enumerate(sites):
                 compared.setdefault(key, set()).add((t["fmt"], t["hs"], i))
     for key, s in compared.items():
-        if key.count("|") >= 1 and len({x[1] for x in s}) >= 2 and len({x[2] for x in s}) >= 2:
+        if (key.count("|") >= 1 or key.startswith("dictfix")) and len({x[1] for x in s}) >= 2 and len({x[2] for x in s}) >= 2:
             nontrivial.append(key)
     for t, r in ok:
         r.pop("texts", None)
